@@ -266,7 +266,11 @@ func buildDelegation(c cast, s DlgSpec) (*delegation.Token, error) {
 		}
 	}
 	if s.Nbf != nil {
-		t := simTime(*s.Nbf, s.SubMilli)
+		ms := s.SubMilli
+		if s.NbfMilli != 0 {
+			ms = s.NbfMilli
+		}
+		t := simTime(*s.Nbf, ms)
 		if s.Relative {
 			opts = append(opts, delegation.WithNotBeforeIn(time.Until(t)))
 		} else {
